@@ -36,6 +36,13 @@ def zcheck(solver, timeout_ms):
             if not th.is_alive():
                 break
         if th.is_alive():
+            # last resort: keep interrupting for a while longer before giving up (exit 3, never a verdict)
+            for _ in range(300):
+                solver.ctx.interrupt()
+                th.join(0.2)
+                if not th.is_alive():
+                    break
+        if th.is_alive():
             raise EngineError('z3 check could not be interrupted')
         return z3.unknown
     return box[0] if box else z3.unknown
@@ -165,7 +172,7 @@ def func_ast(func):
 LOOPS = {}
 
 
-def cut_loops(func, module, summary_hook, which=None, extra_ns=None):
+def cut_loops(func, module, summary_hook, which=None, extra_ns=None, cut_for=False):
     """Mechanical loop cut (DESIGN 2.4 item 1) of the `while` / `for .. in range(K)` statements that are direct
     children of func's body (ordinal-selected by `which`, default all).  The loop `while C: B` becomes
         (v..) = __vp_havoc(id, names, (v..), readnames, (reads..));  if C: B; __vp_back(id, names, (v..))
@@ -181,7 +188,7 @@ def cut_loops(func, module, summary_hook, which=None, extra_ns=None):
         is_loop = isinstance(st, (ast.While, ast.For))
         if is_loop:
             k += 1
-        if is_loop and (which is None or k in which):
+        if is_loop and ((which is None and (isinstance(st, ast.While) or cut_for)) or (which is not None and k in which)):
             kind = 'while' if isinstance(st, ast.While) else 'for'
             lid = '%s#%s%d' % (func.__name__, kind, k)
             names = [v for v in _stores(st.body) if v in bound]
@@ -332,6 +339,50 @@ def denominators(ts):
             if not z3.is_rational_value(d):
                 acc.append(d)
     return acc
+
+
+def small(hyps, limit=120):
+    """the hypotheses of moderate size (big nonlinear path literals only slow down / hang small questions)"""
+    return [h for h in hyps if len(subterms([h])) <= limit]
+
+
+def generalise(u, v):
+    """replace the maximal compound subterms occurring in BOTH u and v by fresh real variables"""
+    def ids(t, acc):
+        k = t.get_id()
+        if k in acc:
+            return
+        acc[k] = t
+        for c in t.children():
+            ids(c, acc)
+    su, sv_ = {}, {}
+    ids(u, su)
+    ids(v, sv_)
+    common = {k for k in su if k in sv_ and z3.is_app(su[k]) and su[k].num_args() > 0 and z3.is_real(su[k])
+              and su[k].decl().kind() in (z3.Z3_OP_ADD, z3.Z3_OP_MUL, z3.Z3_OP_SUB, z3.Z3_OP_DIV, z3.Z3_OP_UMINUS)}
+    if not common:
+        return None, None
+    fresh = {}
+    memo = {}
+
+    def gen(t):
+        k = t.get_id()
+        if k in memo:
+            return memo[k][1]
+        if k in common:
+            if k not in fresh:
+                fresh[k] = (t, z3.Real('gen!%d' % len(fresh)))
+            r = fresh[k][1]
+        elif z3.is_app(t) and t.num_args() > 0:
+            r = t.decl()(*[gen(c) for c in t.children()])
+        else:
+            r = t
+        memo[k] = (t, r)
+        return r
+    gu, gv = gen(u), gen(v)
+    if not fresh:
+        return None, None
+    return gu, gv
 
 
 ODD = {'sin', 'tan', 'atan', 'asin', 'sinh', 'atanh', 'asinh'}
@@ -532,6 +583,18 @@ class Abstractor:
         den = [q != 0 for q in denominators([u, v])]
         t = time.time()
         r = z3.unknown
+        # step 0: anti-unification - maximal subterms shared by both sides become fresh variables (a valid generalisation
+        # implies the instance); turns e.g. |(-S)/D| == |S/D| with huge S, D into a three-variable question
+        gu, gw = generalise(u, w)
+        if gu is not None:
+            sv = z3.Solver()
+            sv.add(*[q != 0 for q in denominators([gu, gw])])
+            sv.add(gu != gw)
+            r = zcheck(sv, 1000)
+            s.queries += 1
+            if r == z3.unsat:
+                s.qtime += time.time() - t
+                return True
         # ladder of small questions: alone -> + side relations -> + the SMALL hypotheses (big nonlinear path literals
         # such as `series < 0` are never handed to an argument-equality question)
         sh = s.small_hyps()
@@ -547,19 +610,25 @@ class Abstractor:
         s.qtime += time.time() - t
         return r == z3.unsat
 
+    def is_one(s, u):
+        c = s._const(u)
+        if c is not None:
+            return c == 1
+        return s.is_zero(u - 1)
+
     def is_zero(s, u):
         """u == 0 under the installed hypotheses (used for sin 0, tan 0, ... on paths such as lat == 0)"""
         c = s._const(u)
         if c is not None:
             return c == 0
-        if not s.hyps:
-            return False
         f = s.fp(u)
-        # a hypothesis may force u to 0 although u is not identically 0: only ask when some hypothesis is an equation
-        if f is not None and not any(z3.is_eq(h) for h in s.small_hyps()) and not s._fp_close(f, (0j,) * s.K):
+        sh = s.small_hyps()
+        # a hypothesis may force u to 0 although u is not identically 0: only ask then when some hypothesis is an equation
+        if f is not None and not s._fp_close(f, (0j,) * s.K) and not any(z3.is_eq(h) for h in sh):
             return False
         sv = z3.Solver()
-        sv.add(*s.small_hyps())
+        sv.add(*sh)
+        sv.add(*[q != 0 for q in denominators([u])])
         sv.add(u != 0)
         s.queries += 1
         return zcheck(sv, 1000) == z3.unsat
@@ -610,9 +679,9 @@ class Abstractor:
                         c0 = 0
                     if c0 == 0 and nm in ZERO_AT_ZERO:
                         r = z3.RealVal(ZERO_AT_ZERO[nm])
-                    elif c0 == 1 and nm in ('sqrt',):
+                    elif nm == 'sqrt' and (c0 == 1 or (c0 is None and s.is_one(u))):
                         r = z3.RealVal(1)
-                    elif c0 == 1 and nm == 'log':
+                    elif nm == 'log' and (c0 == 1 or (c0 is None and s.is_one(u))):
                         r = z3.RealVal(0)
                     if r is None and nm == 'tan':
                         for (a,), c in s.atoms.get('atan', []):
